@@ -811,6 +811,126 @@ churn_close(void *a)
 	nng_socket_close(PL[0].s);
 	return NULL;
 }
+static uint32_t churn_pipe_id[2]; // [0] the PULL side's pipe, [1] the PUSH side's
+static void
+churn_id_cb(nng_pipe p, nng_pipe_ev ev, void *arg)
+{
+	(void) ev;
+	churn_pipe_id[(int) (intptr_t) arg] = p.id;
+}
+static void *
+churn_pipe_close(void *a)
+{
+	nng_pipe p = NNG_PIPE_INITIALIZER;
+	p.id       = churn_pipe_id[(int) (intptr_t) a];
+	nng_pipe_close(p);
+	return NULL;
+}
+static void *
+churn_send(void *a)
+{
+	int      tag = (int) (intptr_t) a;
+	nng_msg *m   = mk_msg(tag);
+	R[tag].sub   = ++evt;
+	R[tag].state = ST_PENDING;
+	int rv       = nng_sendmsg(push, m, 0);
+	R[tag].done  = ++evt;
+	if (rv == 0)
+		R[tag].state = ST_ACCEPTED;
+	else if (rv == NNG_ETIMEDOUT) {
+		R[tag].state = ST_REJECTED;
+		reclaim(tag, m, "blocking send");
+	} else
+		vs_fail("C06:send-result", "[%s] blocking send -> %s", hist, nng_strerror(rv));
+	return NULL;
+}
+
+// how 2/3: a message is in flight on an established connection while that connection's pipe is
+// closed on the PULL side (2) or on the PUSH side (3): the completion callback of the transfer and
+// the pipe's teardown race.  The message may be lost with the connection (it departed), but
+// nothing may be left pointing at the pipe: the sockets are used again afterwards.
+static void
+run_churn2(void *argp)
+{
+	churnarg *ca = argp;
+	vh_init(0);
+	ledger_reset();
+	g_body = 8;
+	snprintf(hist, sizeof(hist), "churn how %d sendbuf %d", ca->how, ca->sendbuf);
+	memset(PL, 0, sizeof(PL));
+	VH_OK(nng_push0_open(&push));
+	VH_OK(nng_socket_set_int(push, NNG_OPT_SENDBUF, ca->sendbuf));
+	VH_OK(nng_socket_set_ms(push, NNG_OPT_SENDTIMEO, 50));
+	VH_OK(nng_socket_set_ms(push, NNG_OPT_RECONNMINT, 1000));
+	VH_OK(nng_socket_set_ms(push, NNG_OPT_RECONNMAXT, 1000));
+	for (int k = 0; k < 2; k++) {
+		VH_OK(nng_pull0_open(&PL[k].s));
+		VH_OK(nng_socket_set_ms(PL[k].s, NNG_OPT_RECVTIMEO, 50));
+	}
+	churn_pipe_id[0] = churn_pipe_id[1] = 0;
+	VH_OK(nng_pipe_notify(PL[0].s, NNG_PIPE_EV_ADD_POST, churn_id_cb, (void *) 0));
+	VH_OK(nng_pipe_notify(push, NNG_PIPE_EV_ADD_POST, churn_id_cb, (void *) 1));
+	VH_OK(nng_listen(PL[0].s, "inproc://c06c", NULL, 0));
+	VH_OK(nng_listen(PL[1].s, "inproc://c06d", NULL, 0));
+	VH_OK(nng_dial(push, "inproc://c06c", NULL, 0));
+	vs_settle();
+	if (!churn_pipe_id[0] || !churn_pipe_id[1])
+		vs_fail("harness:churn", "pipe ids not seen");
+	// optionally one unread message first, so that the puller's pipe is parked
+	int parked = vs_choose(VK_ENV, 2);
+	if (parked) {
+		int tag = ntag++;
+		churn_send((void *) (intptr_t) tag);
+		vs_settle();
+	}
+	pthread_t t1, t2;
+	int       tag = ntag++;
+	vs_window(1);
+	pthread_create(&t1, NULL, churn_send, (void *) (intptr_t) tag);
+	pthread_create(&t2, NULL, churn_pipe_close, (void *) (intptr_t) (ca->how == 2 ? 0 : 1));
+	pthread_join(t1, NULL);
+	pthread_join(t2, NULL);
+	vs_window(0);
+	vs_settle();
+	// the connection departed: what it carried may be lost
+	for (int t = 0; t < ntag; t++)
+		if (R[t].state == ST_ACCEPTED) {
+			R[t].maylose = 1;
+			loss_budget++;
+		}
+	drain_all();
+	// the healthy puller arrives; both sockets are used again
+	VH_OK(nng_dial(push, "inproc://c06d", NULL, 0));
+	vs_settle();
+	for (int i = 0; i < 4; i++) {
+		int      tg = ntag++;
+		nng_msg *m  = mk_msg(tg);
+		R[tg].sub   = ++evt;
+		int rv      = nng_sendmsg(push, m, NNG_FLAG_NONBLOCK);
+		R[tg].done  = ++evt;
+		vs_settle();
+		if (rv == 0) {
+			R[tg].state = ST_ACCEPTED;
+			continue;
+		}
+		if (rv != NNG_EAGAIN)
+			vs_fail("C06:send-result", "[%s] send -> %s", hist, nng_strerror(rv));
+		R[tg].state = ST_REJECTED;
+		reclaim(tg, m, "non-blocking send");
+	}
+	drain_all();
+	vs_sleep(60);
+	drain_all();
+	int acc, rej, lost;
+	check_final(&acc, &rej, &lost);
+	vs_nontrivial();
+	vs_outcome("parked=%d acc=%d rej=%d lost=%d rxA=%d rxB=%d", parked, acc, rej, lost, nrx[0],
+	    nrx[1]);
+	for (int k = 0; k < 2; k++)
+		nng_socket_close(PL[k].s);
+	nng_socket_close(push);
+	vh_fini();
+}
 
 static void
 run_churn(void *argp)
@@ -891,7 +1011,7 @@ explore_churn(churnarg *a, int p, int total)
 	memset(&c, 0, sizeof(c));
 	c.prop     = "C06";
 	c.scenario = nm;
-	c.run      = run_churn;
+	c.run      = a->how >= 2 ? run_churn2 : run_churn;
 	c.arg      = a;
 	c.budget[VB_PREEMPT] = p;
 	c.budget[VB_SWITCH]  = 2;
@@ -969,14 +1089,15 @@ main(int argc, char **argv)
 	// (3) schedules: blocking sender(s) || puller becoming ready.
 	// {sendbuf, mode, senders}; sizes measured on this tree (executions):
 	// m0 p1/t2 1.5 k, p2/t3 37 k; m1 p1/t1 0.2 k, p1/t2 10-14 k; m2 p1/t2 15 k
-	static churnarg CH[] = { { 0, 0 }, { 1, 0 }, { 0, 1 }, { 1, 1 } };
-	for (int i = 0; i < 4; i++) {
+	static churnarg CH[] = { { 0, 0 }, { 1, 0 }, { 0, 1 }, { 1, 1 }, { 2, 0 }, { 3, 0 },
+		{ 2, 1 }, { 3, 1 } };
+	for (int i = 0; i < 8; i++) {
 		if (g_replay) {
 			explore_churn(&CH[i], 1, 1);
 			explore_churn(&CH[i], 1, 2);
 			explore_churn(&CH[i], 2, 2);
 		} else if (!T)
-			explore_churn(&CH[i], 1, i < 2 ? 2 : 1);
+			explore_churn(&CH[i], 1, (i < 2 || i >= 4) ? 2 : 1);
 		else
 			explore_churn(&CH[i], 2, 2);
 	}
